@@ -115,8 +115,9 @@ package tmstate
 // ---- C08: strategy requests carry the current round's answer channel; finalize only on a >2/3 block precommit ----
 
 //@ chaninv tsi.ConsensusManager.DecidePrecommitRequests(req): req.Result != nil && req.Result == rlc.PrecommitHashCh
-//@ chaninv tsi.ConsensusManager.ConsiderProposedBlocksRequests(req): req.Result != nil && req.Result == rlc.PrevoteHashCh
-//@ chaninv tsi.ConsensusManager.ChooseProposedBlockRequests(req): req.Result != nil && req.Result == rlc.PrevoteHashCh
+// ... and show the strategy only proposed headers that match what this node finalized (C07).
+//@ chaninv tsi.ConsensusManager.ConsiderProposedBlocksRequests(req): req.Result != nil && req.Result == rlc.PrevoteHashCh && allMatch(req.PHs, rlc)
+//@ chaninv tsi.ConsensusManager.ChooseProposedBlockRequests(req): req.Result != nil && req.Result == rlc.PrevoteHashCh && allMatch(req.PHs, rlc)
 
 //@ define blockQuorum(vs) = vs.MostVotedPrecommitHash != "" && 3 * vs.PrecommitBlockPower[vs.MostVotedPrecommitHash] > 2 * vs.AvailablePower
 //@ define nilQuorum(vs) = vs.MostVotedPrecommitHash == "" && 3 * vs.PrecommitBlockPower[""] > 2 * vs.AvailablePower
@@ -152,7 +153,7 @@ package tmstate
 // While awaiting a proposal the view can already show that the network moved on: every branch that leaves the step
 // cancels the proposal timer, and a timer is armed again only for a timed step.
 //@ func StateMachine.handleProposalViewUpdate
-//@   property C08 C12
+//@   property C08 C12 C07
 //@   option explicit-panics allowed
 //@   requires TimerInv(rlc) && rlc.S == tsi.StepAwaitingProposal && vrv.VoteSummary.AvailablePower > 0
 //@   requires rlc.VRV != nil && rlc.PrecommitHashCh != nil && rlc.PrevoteHashCh != nil && rlc.PrevConsideredHashes != nil
@@ -160,12 +161,12 @@ package tmstate
 //@   modifies heap
 
 //@ func StateMachine.handleBlockDataArrival
-//@   property C08
+//@   property C08 C07
 //@   requires rlc.VRV != nil
 //@   modifies heap
 
 //@ func StateMachine.handleTimerElapsed
-//@   property C08 C12
+//@   property C08 C12 C07
 //@   requires TimerInv(rlc) && timedStep(rlc.S) && rlc.VRV != nil
 //@   requires rlc.S == tsi.StepAwaitingProposal ==> rlc.PrevoteHashCh != nil
 //@   requires rlc.S == tsi.StepPrevoteDelay ==> rlc.PrecommitHashCh != nil
@@ -178,15 +179,16 @@ package tmstate
 //@     bytes(ph.Header.NextValidatorSet.PubKeyHash) == bytes(rlc.PrevFinNextValSet.PubKeyHash) &&
 //@     bytes(ph.Header.NextValidatorSet.VotePowerHash) == bytes(rlc.PrevFinNextValSet.VotePowerHash)
 
+//@ define allMatch(phs, rlc) = forall i int :: {addr(phs[i])} 0 <= i && i < len(phs) ==> phMatches(phs[i], rlc)
 //@ func StateMachine.rejectMismatchedProposedHeaders
 //@   property C07 C08
 //@   ensures nil-in-nil-out: in == nil ==> result == nil
 //@   ensures never-more: len(result) <= len(in)
+//@   ensures only-matching-headers: allMatch(result, rlc)
 //@   modifies nothing
 //@   loop 1 invariant bounds: len(out) <= rangeindex + 1 && rangeindex < len(in)
 //@   loop 1 invariant fresh-out: len(out) == 0 || fresh(out)
-// (The element-wise statement "every returned header satisfies phMatches" discharges only with a 60 s solver budget
-//  because of the 25-field struct copies in append; it is not claimed in the quick tier. See DESIGN.md.)
+//@   loop 1 invariant out-matches: allMatch(out, rlc)
 
 // ---- C10: where the state machine resumes ----
 // Durable state of the state machine store and the finalization store as ghost state (keyed by 0 / by height).
